@@ -171,6 +171,7 @@ type scriptCase struct {
 	Steps    []scriptStep `json:"steps"`
 	Faults   []faultSpec  `json:"faults,omitempty"`
 	Delays   bool         `json:"delays"`
+	CtxReads bool         `json:"reads_fail_once_context_done,omitempty"`
 	Variant  string       `json:"engine"` // started, never-started, stopped
 	Query    string       `json:"query"`
 	Conc     int          `json:"max_query_concurrency"`
@@ -502,6 +503,10 @@ func runScripts(rc *RunCtx, i int, forProp string) {
 			steps = []scriptStep{{Op: "next", N: r.Range(1, 40)}, {Op: core.Pick(r, []string{"close", "cancel"})}, {Op: "drain"}}
 		}
 		sc := &scriptCase{Steps: steps, Delays: r.Chance(0.6), Variant: core.Pick(r, []string{"started", "started", "never-started", "stopped"}), Conc: sw.conc}
+		// a quarter of the scripts run against handles that behave like object-store streams: once
+		// the query's context is done (cancel, Close) their reads fail with its error, so workers
+		// meet read failures exactly while the query is being torn down
+		sc.CtxReads = r.Intn(4) == 0
 		if r.Chance(0.4) {
 			nf := r.Range(1, 3)
 			for f := 0; f < nf; f++ {
@@ -586,6 +591,10 @@ func runOneScript(rc *RunCtx, i, k int, sw *scriptWorld, sc *scriptCase, q *bs.Q
 	}
 	sw.plan.mu.Lock()
 	sw.plan.base = base
+	sw.w.IData.ReadsHonorCtx.Store(sc.CtxReads)
+	if sc.CtxReads {
+		rc.Res.Count("scripts_reads_fail_once_context_done", 1)
+	}
 	sw.plan.faults = sc.Faults
 	sw.plan.delays = sc.Delays
 	sw.plan.injected = nil
